@@ -270,6 +270,15 @@ pub fn run(tier: &str) -> i32 {
             ("f := () -> int { return 1 }; match f { (f) => 1, => 0, }", "1"),
             ("c := mut 1; (c == 1, 1 == c, c == *c, std.len == std.len, () == [], \"\" == [], 0 == false, 1 == 1.0, (1, 2) == [1, 2])", "(false, false, false, true, false, false, false, false, false)"),
             ("it := [1]~; jt := it; (it == jt, it == [1]~)", "(true, false)"),
+            // a function value is itself whichever way it is reached: its own name inside its body,
+            // a parameter, a capture, a container, deeper recursion, a declaration inside a function
+            ("same := (g: any) -> bool { return g == same }; (same(same), same(1))", "(true, false)"),
+            ("same := (g: any) -> any { m := match g { (same) => 1, => 0, }; return (g == same, g != same, same == g, m, [g] == [same], (g, 1) == (same, 1)) }; same(same)", "(true, false, true, 1, true, true)"),
+            ("same := (g: any, n: int) -> bool { if n > 0 { return same(g, n - 1) }; return g == same }; (same(same, 0), same(same, 2))", "(true, true)"),
+            ("mk := () -> (any) -> bool { inner := (g: any) -> bool { return g == inner }; return inner }; h := mk(); k := mk(); (h(h), h == h, h(k), h == k)", "(true, true, false, false)"),
+            ("f := (g: any) -> bool { h := () -> bool { return g == f }; return h() }; (f(f), f(1))", "(true, false)"),
+            ("keep := mut any (); reg := (g: any) -> () { keep = g }; chk := (g: any) -> bool { return *keep == g && g == chk }; reg(chk); chk(chk)", "true"),
+            ("arr := [(g: any) -> bool { return true }]; f := arr[0]; (f == arr[0], [f] == arr, arr == [f])", "(true, true, true)"),
         ];
         for (prog, want) in cases {
             let got = match eval(&interp, prog) {
@@ -283,7 +292,28 @@ pub fn run(tier: &str) -> i32 {
                 });
             }
         }
-        (out, cases.len())
+        // the same through the host API: a function value handed to itself
+        for (def, want) in [
+            ("same := (g: any) -> bool { return g == same }", "true"),
+            ("same := (g: any) -> any { m := match g { (same) => 1, => 0, }; return (g == same, m) }", "(true, 1)"),
+            ("same := (g: any) -> bool { h := () -> bool { return g == same }; return h() }", "true"),
+        ] {
+            let got = match eval(&interp, def) {
+                Ok(Variable::Function(f)) => match call(&f, vec![Variable::Function(f.clone())]) {
+                    Ok(v) => canon(&v),
+                    Err(e) => e,
+                },
+                Ok(other) => format!("not a function: {}", canon(&other)),
+                Err(e) => e,
+            };
+            if got != want {
+                out.push(Violation {
+                    sig: format!("C19|identity|host-call|{}", def.chars().take(50).collect::<String>()),
+                    detail: json!({"kind": "host_call", "program": def, "args": ["the function value itself"], "expected": want, "observed": got}),
+                });
+            }
+        }
+        (out, cases.len() + 3)
     });
     acc.comparisons += id_viol.1 as u64;
     report.violations(id_viol.0);
